@@ -266,3 +266,33 @@ Proof.
 Qed.
 
 End Found.
+
+(* ---- what is left unlabelled by an advancing driver: sections the
+   detector declined, and leading pieces of its splits *)
+
+Section Complete.
+Variable F : Type.
+Variable detect : str -> dres F.
+Variables Inv P : str -> Prop.
+Hypothesis det_no : forall s, Inv s -> detect s = DNo -> P s.
+Hypothesis det_yes : forall s p f, Inv s -> detect s = DYes p f ->
+  unlab_all Inv p /\ exists x p', p = x :: p' /\ (snd x = None -> P (fst x)).
+
+Lemma drive_complete : forall fuel todo out fs, drive detect false fuel todo = Some (out, fs) ->
+  unlab_all Inv todo -> unlab_all P out.
+Proof.
+  apply (drive_rel F detect false (fun a b fs => unlab_all Inv a -> unlab_all P b)).
+  - intros _. constructor.
+  - intros s l a b fs IH Hi. inversion Hi; subst. constructor; [discriminate|now apply IH].
+  - intros s a b fs D IH Hi. inversion Hi as [|? ? Hs Hr]; subst. constructor; [|now apply IH].
+    intros _. apply det_no; [now apply Hs|assumption].
+  - discriminate.
+  - intros _ s p f rest x rest' out fs D E IH Hi. inversion Hi as [|? ? Hs Hr]; subst.
+    destruct (det_yes s p f (Hs eq_refl) D) as (Hip & x0 & p' & -> & Hx).
+    simpl in E. injection E as <- <-. inversion Hip; subst.
+    constructor; [assumption|]. apply IH. apply Forall_app. now split.
+  - intros _ s f D Hi. inversion Hi as [|? ? Hs Hr]; subst.
+    destruct (det_yes s [] f (Hs eq_refl) D) as (_ & x0 & p' & E & _). discriminate.
+Qed.
+
+End Complete.
